@@ -54,10 +54,29 @@ def rule_line_basics(rep: Report, rid="C04.indent") -> None:
     kw = dict(file=LFILE, line=fi.node.lineno, function=fi.qualname)
     ext = st.ext
     trimmed = ("call", ".lstrip", (text,), ())
-    rep.eq(rid, "the trimmed text is the line without its leading whitespace", fmt(trimmed, I), fmt(ext.get((selft, N.TRIMMED), NONE), I), **kw)
+    got_trimmed = ext.get((selft, N.TRIMMED), NONE)
     ind = ext.get((selft, "indent"))
-    want = ("binop", "Sub", ("call", "len", (text,), ()), ("call", "len", (trimmed,), ()))
-    rep.ob(rid, "indent = number of leading whitespace code points", ind is not None and lin_eq(ind, want), **kw, expected=fmt(want, I), found=fmt(ind, I) if ind else None)
+
+    def leading_ws_count(t):
+        """t counts the leading whitespace characters of the line: sum(1 for _ in takewhile(str.isspace, text)) / len(list(...))"""
+        if t is None or t[0] != "call" or t[1] not in ("sum", "len") or len(t[2]) != 1:
+            return False
+        sg = nf.flatten_segs(I, nf.value_segs(I, t[2][0], tree), tree) if t[2][0][0] == "ref" else []
+        run = None
+        if t[1] == "sum" and len(sg) == 1 and sg[0][0] == "loop" and list(sg[0][2]) == [("e", const(1))] and not I.loops[sg[0][1]].get("conds"):
+            run = I.loops[sg[0][1]].get("iter")
+        elif t[1] == "len" and len(sg) == 1 and sg[0][0] == "s":
+            run = sg[0][1]
+        return run == ("call", "itertools.takewhile", (("attr", ("builtin", "str"), "isspace"), text), ())
+
+    if leading_ws_count(ind) and got_trimmed == ("slice", text, ind, NONE, NONE):
+        # the same two facts computed the other way round: count the leading whitespace, then cut it off
+        rep.ob(rid, "the trimmed text is the line without its leading whitespace", True, **kw, expected=fmt(trimmed, I), found=fmt(got_trimmed, I))
+        rep.ob(rid, "indent = number of leading whitespace code points", True, **kw, expected="leading whitespace count", found=fmt(ind, I))
+    else:
+        rep.eq(rid, "the trimmed text is the line without its leading whitespace", fmt(trimmed, I), fmt(got_trimmed, I), **kw)
+        want = ("binop", "Sub", ("call", "len", (text,), ()), ("call", "len", (trimmed,), ()))
+        rep.ob(rid, "indent = number of leading whitespace code points", ind is not None and lin_eq(ind, want), **kw, expected=fmt(want, I), found=fmt(ind, I) if ind else None)
     rep.eq(rid, "the raw line text is kept unchanged", fmt(text, I), fmt(ext.get((selft, N.RAW), NONE), I), **kw)
     rep.eq(rid, "the line number is kept", fmt(("param", fi.params()[2]), I), fmt(ext.get((selft, N.LINENO), NONE), I), **kw)
     # helpers
